@@ -29,13 +29,13 @@ CHECKS["C14"] = dict(
     level_note="Trusted: the reference model, the rendezvous machinery, rapid, the Go toolchain, loopback TCP. Context cancellation, transport failure, middleware and the freightfluence wrappers are outside the check.",
     tests=[
         dict(name="TestC14Mock",
-             quick=dict(cases=34000, shards=2, gomaxprocs=[0, 2], shrinktime="15s", timeout=600),
+             quick=dict(cases=44000, shards=2, gomaxprocs=[0, 2], shrinktime="15s", timeout=600),
              thorough=dict(cases=150000, shards=4, gomaxprocs=[0, 2, 1, 4], timeout=1500)),
         dict(name="TestC14WS",
-             quick=dict(cases=24000, shards=3, gomaxprocs=[0, 4, 1], shrinktime="15s", timeout=600),
+             quick=dict(cases=30000, shards=3, gomaxprocs=[0, 4, 1], shrinktime="15s", timeout=600),
              thorough=dict(cases=80000, shards=6, gomaxprocs=[0, 4, 1, 2, 0, 8], timeout=1500)),
         dict(name="TestC14GRPC",
-             quick=dict(cases=28000, shards=3, gomaxprocs=[0, 4, 1], shrinktime="15s", timeout=600),
+             quick=dict(cases=36000, shards=3, gomaxprocs=[0, 4, 1], shrinktime="15s", timeout=600),
              thorough=dict(cases=100000, shards=6, gomaxprocs=[0, 4, 1, 2, 0, 8], timeout=1500)),
     ],
 )
